@@ -50,6 +50,9 @@ func judgeItems(prop string, sc *BatchSc, x *batchExec, br batchRun) (fp, msg st
 		}
 		totalWant += m.Attempts
 		totalGot += len(execs)
+		if len(execs) == 0 && prop != "C07" && sc.item(i).PreErr {
+			continue // whether a pre-made error item is executed at all is C07's question only
+		}
 		if len(execs) == 0 {
 			if sc.stop() {
 				continue // skipped by stop-on-error: C09's business
